@@ -1046,7 +1046,7 @@ func (e *fnEnc) ret(i *ssa.Return) {
 			e.vc.oblige(&Obligation{Name: name, Kind: "typeinv", Guard: e.guard(), Cond: f.f, Props: props, Pos: i.Pos(), Src: "type invariant of returned " + f.tn + ": " + f.cl.Src})
 		}
 	}
-	env := e.resultEnv(vals, e.cur)
+	env := e.resultEnvAt(vals, e.cur, i)
 	for k, cl := range e.contract.Ensures {
 		f, err := env.Bool(cl.Expr)
 		if err != nil {
